@@ -224,13 +224,15 @@ Proof.
     { clear. induction wstr; simpl; [reflexivity | rewrite IHwstr; apply orb_true_r]. }
     rewrite HQ. unfold sized_const, split_quote.
     rewrite split_quote_from_one by assumption. simpl append.
-    rewrite Hw, Hb, Hd. reflexivity.
+    rewrite Hw, Hb. unfold py_int. rewrite Hd. reflexivity.
 Qed.
 Example sized_const_ex :
   sigsel (AName "4'hA"%string None) = Some (SMany ["1'b1"; "1'b0"; "1'b1"; "1'b0"]%string) /\
   sigsel (AName "3'D13"%string None) = Some (SMany ["1'b1"; "1'b0"; "1'b1"]%string) /\   (* 13 mod 8 = 5 *)
   sigsel (AName "1'b1"%string None) = Some (SOne "1'b1"%string) /\
-  sigsel (AName "2'b12"%string None) = None /\ sigsel (AName "0'b0"%string None) = None.
+  sigsel (AName "2'b12"%string None) = None /\ sigsel (AName "0'b0"%string None) = None /\
+  sigsel (AName "2'B0b11"%string None) = Some (SMany ["1'b1"; "1'b1"]%string) /\ sigsel (AName "1'b0b"%string None) = None /\
+  sigsel (AName "1'd0b1"%string None) = None.
 Proof. repeat split; reflexivity. Qed.
 
 (** * concatenation *)
